@@ -59,6 +59,16 @@ def setcols_complete(ctx, py, rule="PY-SETCOLS", only_tables=False):
                 n += 1
                 ctx.ob(rule, "%s|%s|%s" % (qn, parts[1], meth), ok, m.loc(c),
                        "all columns passed" if ok else "self.%s.%s(...) omits %s: these columns are emptied" % (parts[1], meth, missing))
+                # each keyword is fed from the column of the same name: `dest=self.migrations.source` rewrites one column with another
+                for k in c.keywords:
+                    if k.arg is None:
+                        continue
+                    srcs = {a.attr for a in ast.walk(k.value) if isinstance(a, ast.Attribute) and (dotted(a.value) or "") == recv}
+                    if srcs:
+                        okk = srcs == {k.arg}
+                        ctx.ob(rule, "%s|%s|%s|%s" % (qn, parts[1], meth, k.arg), okk, m.loc(k.value),
+                               "%s= comes from %s.%s" % (k.arg, recv, k.arg) if okk else
+                               "%s= is filled from %s.%s: the column is overwritten with another column's values" % (k.arg, recv, sorted(srcs)[0]))
             elif recv == "self" and cls in cols or (recv == "self" and cls in ("BaseTable", "MetadataTable")):
                 if qn.endswith(".set_columns") or meth != "set_columns":
                     continue
